@@ -14,6 +14,7 @@ func init() {
 	families["conc_free"] = genConcFree
 	families["conc_sched"] = genConcSched
 	families["conc_build"] = genConcBuild
+	families["fault_read_big"] = genFaultReadBig
 }
 
 func smallCfg(r *rand.Rand) GenCfg {
@@ -316,5 +317,45 @@ func genConcBuild(r *rand.Rand, i int) Scenario {
 		}
 	}
 	sc.Ops = append(sc.Ops, Op{Op: "par", Groups: groups})
+	return sc
+}
+
+// fault_read_big: a file-backed segment with several doc-value chunks and multi-chunk postings; readers and
+// iterators warmed on one chunk, the storage fails, other chunks are asked for (errors), then the warmed
+// chunk again - every call must return an error, nothing, or the right answer (C19)
+func genFaultReadBig(r *rand.Rand, i int) Scenario {
+	n := 1030 + r.Intn(1100)
+	b := make(Batch, n)
+	for d := 0; d < n; d++ {
+		doc := Doc{}
+		if d%9 == 7 || d == n-1 || d == 1024 || d == 1050 {
+			doc = append(doc, FieldInst{Name: "f", Len: 1, DV: true, Value: Bytes{}, Terms: []TermOcc{{Term: B([]byte(fmt.Sprintf("v%04d", d%100))), Freq: 1, Locs: []Loc{}}}})
+		}
+		if d%2 == 0 {
+			doc = append(doc, FieldInst{Name: "g", Len: 2, Value: Bytes{}, Terms: []TermOcc{{Term: B([]byte("common")), Freq: 2, Locs: []Loc{{Field: "", Pos: 1, Start: 0, End: 6}}}}})
+		}
+		b[d] = doc
+	}
+	sc := Scenario{Name: fmt.Sprintf("fault_read_big-%d", i), NormKind: "code", Universe: []string{"_id", "f", "g"}, Batches: []Batch{b},
+		Tags: []string{"fault_read_big"}}
+	sc.Ops = append(sc.Ops, Op{Op: "watchdog", Watchdog: 3000}, Op{Op: "build", Seg: 1, Batch: 0, Mode: []uint32{0, 100, 1024}[i%3]},
+		Op{Op: "persist", Seg: 1, File: 1}, Op{Op: "load", File: 1, Seg: 2, Backing: "file"},
+		Op{Op: "dv_open", Seg: 2, R: 1, Fields: []string{"f"}})
+	// warm the reader on chunk 0 - with documents that have no value (chunk loaded, never decompressed) or with values
+	warm := []int{0, 1, 2, 3}
+	if i%2 == 1 {
+		warm = []int{0, 7, 1, 16}
+	}
+	for _, d := range warm {
+		sc.Ops = append(sc.Ops, Op{Op: "dv_visit", R: 1, N: d})
+	}
+	sc.Ops = append(sc.Ops, Op{Op: "pl_open", Seg: 2, Field: "g", Term: B([]byte("common")), Pl: 10},
+		Op{Op: "it_open", Pl: 10, It: 20, Freq: true, Norm: true, Locs: true}, Op{Op: "it_next", It: 20}, Op{Op: "it_next", It: 20})
+	sc.Ops = append(sc.Ops, Op{Op: "close_file", Seg: 2})
+	for _, d := range []int{1050, 7, 1024, 16, 25, n - 1, 34, 0} {
+		sc.Ops = append(sc.Ops, Op{Op: "dv_visit", R: 1, N: d})
+	}
+	sc.Ops = append(sc.Ops, Op{Op: "it_adv", It: 20, D: 600}, Op{Op: "it_next", It: 20}, Op{Op: "it_adv", It: 20, D: 1500}, Op{Op: "it_next", It: 20},
+		Op{Op: "stored", Seg: 2, N: 0}, Op{Op: "stored", Seg: 2, N: 200}, Op{Op: "dict", Seg: 2, Field: "f"}, Op{Op: "dict", Seg: 2, Field: "g"})
 	return sc
 }
